@@ -118,3 +118,38 @@ func judgeJoin(rep *lib.Report, parts [][]byte, delim []byte) {
 		rep.Violate("compose:jointo", fmt.Sprintf("JoinTo on a printer (%q, %q) = %q, want %q", delim, parts, got, want), kase)
 	}
 }
+
+// joinEdgeCases: Join / JoinTo on empty and one-element slices, empty and enveloped delimiters: no panic, plain
+// concatenation, and Redact / StripMarkers distribute over the composition (C08, C11).
+func joinEdgeCases(rep *lib.Report) {
+	parts := [][]redact.RedactableString{nil, {}, {"‹a›"}, {"‹a›", "‹b›"}, {"x", "‹a›", ""}, {"‹a›\n", "‹b›"}, {"", ""}, {"‹×›", "‹×›", "‹c›"}}
+	delims := []redact.RedactableString{"", ", ", "‹,›", "\n", "‹×›"}
+	for _, ps := range parts {
+		for _, d := range delims {
+			kase := map[string]interface{}{"kind": "join", "delim": string(d), "parts": ps}
+			rep.Guard("compose:join-panic", kase, func() {
+				got := redact.Join(d, ps)
+				var sb redact.StringBuilder
+				redact.JoinTo(&sb, d, ps)
+				rep.AddEval(2)
+				want, wantRed, wantStrip := "", "", ""
+				for i, x := range ps {
+					if i > 0 {
+						want, wantRed, wantStrip = want+string(d), wantRed+string(d.Redact()), wantStrip+d.StripMarkers()
+					}
+					want, wantRed, wantStrip = want+string(x), wantRed+string(x.Redact()), wantStrip+x.StripMarkers()
+				}
+				if string(got) != want || string(sb.RedactableString()) != want {
+					rep.Violate("compose:join", fmt.Sprintf("Join(%q, %q) = %q, JoinTo on a builder %q, want the plain concatenation %q", d, ps, got, sb.RedactableString(), want), kase)
+					return
+				}
+				if r := string(got.Redact()); r != wantRed {
+					rep.Violate("compose:redact-distributes", fmt.Sprintf("Redact(Join(%q, %q)) = %q, joining the redacted pieces gives %q", d, ps, r, wantRed), kase)
+				}
+				if r := got.StripMarkers(); r != wantStrip {
+					rep.Violate("compose:strip-distributes", fmt.Sprintf("StripMarkers(Join(%q, %q)) = %q, piecewise %q", d, ps, r, wantStrip), kase)
+				}
+			})
+		}
+	}
+}
